@@ -182,12 +182,12 @@ def check_deser(env, prog, label, ndata):
                 values.append(r.value)
     # deserialization pass_through for dataclass instances appearing in the data
     if isinstance(t, ObjectT) and t.kind == "dataclass" and valid:
-        from typing import List
-        cls = T
+        from typing import List, get_origin
+        cls = get_origin(T) or T  # pass_through names classes: a specialised generic is checked through its origin
         harness.reset_all()
         kw = dict(base_kw)
-        plain = harness.call(deserialization_method, List[cls], **kw)
-        pt = harness.call(deserialization_method, List[cls], pass_through=(cls,), **kw)
+        plain = harness.call(deserialization_method, List[T], **kw)
+        pt = harness.call(deserialization_method, List[T], pass_through=(cls,), **kw)
         if plain.kind == "ok" and pt.kind == "ok":
             for v in valid[:3]:
                 inst = harness.call(methods["no_copy_off"], v)
